@@ -51,9 +51,9 @@ PROPS = {
                       "theorems; they are additionally judged on every run by Oracle.C11b on the implementation's output.",
     },
     "C06": {
-    "generators": [("c06a", 4000, 120000), ("c06idx", 6000, 60000), ("c06pc", 3000, 60000)],
+    "generators": [("c06a", 4000, 120000), ("c06idx", 6000, 60000), ("c06pc", 3000, 60000), ("c04build", 1600, 24000)],
     "translators": ["translator_c06", "translator_c08"],
-    "modules": ["S2.Generated.LocateFns", "S2.ShapesBase", "S2.ShapesLoops", "S2.Shapes", "S2.Generated.ShapeAccessors", "S2.Locate", "S2.PaddedCellM", "S2.Hilbert", "S2.STUV", "S2.CellM", "S2.CellID", "S2.Contain", "S2.Pred", "S2.Exact"],
+    "modules": ["S2.IndexBuild", "S2.Generated.LocateFns", "S2.ShapesBase", "S2.ShapesLoops", "S2.Shapes", "S2.Generated.ShapeAccessors", "S2.Locate", "S2.PaddedCellM", "S2.Hilbert", "S2.STUV", "S2.CellM", "S2.CellID", "S2.Contain", "S2.Pred", "S2.Exact"],
     "rule": "shapes: every Shape type (Loop incl. empty/full/0/2-vertex, Polyline, LaxPolyline, PointVector, LaxLoop (both "
             "constructors), LaxPolygon with 0,1,2,few,many loops incl. 0/1/2-vertex loops, Polygon empty/full/no-loop, disjoint and "
             "nested loop sets of 1..7, 11,12,13,14,40 loops = both sides of maxLinearSearchLoops) with pairwise distinct vertices; "
@@ -71,7 +71,8 @@ PROPS = {
                             or l.startswith("c06pcpath") or l.startswith("c06pcnext")
                             or (l.startswith("c06pcshrink") and l.split(" ")[1] != l.split(" ")[-1])
                             or l.startswith("c04cross") or l.startswith("c04cpq")
-                            or (l.startswith("c04idx") and l.split(" C ", 1)[-1].count(" ") >= 1),
+                            or (l.startswith("c04idx") and l.split(" C ", 1)[-1].count(" ") >= 1)
+                            or (l.startswith("c04build ") and l.split(" C", 1)[-1].strip() != ""),
     "trusted_base": [
         "translator_c06 (go/ast -> Lean) for the accessor arithmetic; every translated accessor is ALSO compared behaviourally (c06shape)",
         "Polygon.Edge/Chain/ChainPosition are regenerated too (two-variable loop primitives forInc2/rangeBreak2, S2/ShapesLoops.lean) and "
@@ -265,9 +266,9 @@ PROPS = {
     },
     "C04": {
     # (generator, quick n, thorough n); quick ~ 40 s on 16 cores, thorough ~ 7 min
-    "generators": [("c04", 8000, 80000)],
+    "generators": [("c04", 8000, 80000), ("c04build", 1600, 24000)],
     "translators": ["translator_c08"],
-    "modules": ["S2.Generated.ContainFns", "S2.Contain", "S2.Pred", "S2.Exact", "S2.STUV", "S2.F64", "S2.CellID", "S2.Hilbert"],
+    "modules": ["S2.IndexBuild", "S2.Generated.ContainFns", "S2.Contain", "S2.Pred", "S2.Exact", "S2.STUV", "S2.F64", "S2.CellID", "S2.Hilbert"],
     "rule": "exact judge = crossing parity from OriginPoint with the exact orientation predicate (S2.Contain over S2.Pred.exactDecision). "
             "c04contain: valid loops (star-shaped about a centre at a pole / cube corner / face-edge midpoint / face centre / near a seam / anywhere; "
             "3..2000 vertices incl. 30..35 around the 32-vertex brute-force threshold; radius 1e-7 .. hemisphere; regular or jittered; "
@@ -284,7 +285,8 @@ PROPS = {
             "c04idx: I1/I2/I3 of the loop's own index. non-trivial = a c04contain line with >= 3 vertices, any c04tile line, any c04idx line "
             "with >= 2 cells; distinct = distinct (op, arguments)",
     "nontrivial": lambda l: l.startswith("c04tile") or (l.startswith("c04contain") and l.split(" ")[1].count(";") >= 2)
-                            or (l.startswith("c04idx") and l.split(" C ", 1)[-1].count(" ") >= 1),
+                            or (l.startswith("c04idx") and l.split(" C ", 1)[-1].count(" ") >= 1)
+                            or (l.startswith("c04build ") and l.split(" C", 1)[-1].strip() != ""),
     "trusted_base": [
         "hook s2/verif_export_c04.go (read-only dump of index cells; wrappers forcing the brute-force / index path of Loop and Polygon)",
         "the oracle decides orientation by the sign of the exact integer determinant with per-vector power-of-two scaling and falls back to "
